@@ -25,7 +25,7 @@ class Var:
     """
 
     def __init__(self, kind, alias, cats=None, items=None, numeric_values=None, ca_transposed=False,
-                 typedef_perm=None):
+                 typedef_perm=None, view_insertions=None):
         self.kind = kind
         self.alias = alias
         self.cats = cats or []      # list of dict(id, missing, name, numeric_value[, date])
@@ -34,6 +34,8 @@ class Var:
         # when set (a permutation of range(len(cats))): the typedef lists the categories in THAT order and
         # carries `order` = ids in data order; `cats` always stays in data (payload-axis) order
         self.typedef_perm = typedef_perm
+        # insertions defined on the variable view (references.view.transform.insertions); transforms override them
+        self.view_insertions = view_insertions
 
     # ---- shape / typed view ------------------------------------------------------------
     @property
@@ -64,12 +66,14 @@ class Var:
 
     def to_json(self):
         return {"kind": self.kind, "alias": self.alias, "cats": self.cats, "items": self.items,
-                "ca_transposed": self.ca_transposed, "typedef_perm": self.typedef_perm}
+                "ca_transposed": self.ca_transposed, "typedef_perm": self.typedef_perm,
+                "view_insertions": self.view_insertions}
 
     @classmethod
     def from_json(cls, d):
         return cls(d["kind"], d["alias"], cats=copy.deepcopy(d["cats"]), items=copy.deepcopy(d["items"]),
-                   ca_transposed=d.get("ca_transposed", False), typedef_perm=d.get("typedef_perm"))
+                   ca_transposed=d.get("ca_transposed", False), typedef_perm=d.get("typedef_perm"),
+                   view_insertions=copy.deepcopy(d.get("view_insertions")))
 
     @property
     def valid_cat_pos(self):
@@ -87,6 +91,8 @@ class Var:
     # ---- dimension dicts ---------------------------------------------------------------
     def dimension_dicts(self):
         refs = {"alias": self.alias, "name": self.alias.upper(), "description": "d " + self.alias}
+        if self.view_insertions is not None and not self.is_array:
+            refs["view"] = {"transform": {"insertions": copy.deepcopy(self.view_insertions)}}
         if self.kind in ("cat", "cat_date", "logical"):
             cats = []
             for c in self.cats:
